@@ -37,7 +37,8 @@ class State(object):
         self.mem = dict(mem_init or {})
         self.sto = dict(sto_init or {})
         self.trace = []
-        self.msize = 0
+        # size of the active memory in bytes: some multiple of 32 at block entry, grown by every access
+        self.msize = 32 * (H('msize0', seed) % 5)
         self.gas_reads = 0
 
     def mbyte(self, a):
@@ -47,10 +48,16 @@ class State(object):
             v = H('mem', self.seed, a) & 0xff
         return v
 
+    def touch(self, a, n):
+        if n > 0 and a + n <= 2 ** 40:
+            self.msize = max(self.msize, ((a + n + 31) // 32) * 32)
+
     def mread(self, a, n):
+        self.touch(a, n)
         return bytes(self.mbyte(a + i) for i in range(n))
 
     def mwrite(self, a, data):
+        self.touch(a, len(data))
         for i, b in enumerate(data):
             self.mem[(a + i) % M] = b
 
@@ -113,7 +120,6 @@ def step(st, name, value=None):
         o, n = st.pop(2)
         if n <= 4096:
             st.push(H('keccak', st.mread(o, n)))
-            st.msize = max(st.msize, o + n)
         else:
             st.push(H('keccak-big', o, n, st.seed))
     elif name == 'MLOAD':
@@ -132,7 +138,7 @@ def step(st, name, value=None):
         k, v = st.pop(2)
         st.sto[k] = v
     elif name == 'MSIZE':
-        st.push(H('msize', st.seed))
+        st.push(st.msize)
     elif name == 'GAS':
         st.gas_reads += 1
         st.push(H('gas', st.seed, st.gas_reads))
